@@ -18,18 +18,18 @@ func stub(format, fixture, fileName, sigType string, flags url.Values) func(env 
 func init() {
 	P := "/repo/functest/packages/"
 	builders = append(builders,
-		builder{name: "msi", fn: stub("msi", "dummy.msi", "dummy.msi", "", nil)},
-		builder{name: "cab", fn: stub("cab", "dummy.cab", "dummy.cab", "", nil)},
-		builder{name: "cat", fn: stub("cat", "hyperv.cat", "hyperv.cat", "", nil)},
-		builder{name: "ps1", fn: stub("ps", "hello.ps1", "hello.ps1", "", nil)},
-		builder{name: "ps1xml", fn: stub("ps", "hello.ps1xml", "hello.ps1xml", "", nil)},
-		builder{name: "mof", fn: stub("ps", "hello.mof", "hello.mof", "", nil)},
+		builder{name: "msi", fn: buildMSI},
+		builder{name: "cab", fn: buildCAB},
+		builder{name: "cat", fn: buildCAT},
+		builder{name: "ps1", fn: buildPSFile("hello.ps1")},
+		builder{name: "ps1xml", fn: buildPSFile("hello.ps1xml")},
+		builder{name: "mof", fn: buildPSFile("hello.mof")},
 		builder{name: "appmanifest", fn: stub("appmanifest", "WindowsFormsApplication1.exe.manifest", "WindowsFormsApplication1.exe.manifest", "", nil)},
 		builder{name: "jar", fn: buildJAR},
 		builder{name: "apk", fn: buildAPK},
-		builder{name: "xap", fn: stub("xap", "dummy.xap", "dummy.xap", "", nil)},
-		builder{name: "vsix", fn: stub("vsix", "VSIXProject1.vsix", "VSIXProject1.vsix", "", nil)},
-		builder{name: "appx", fn: stub("appx", "App1_1.0.3.0_x64.appx", "App1_1.0.3.0_x64.appx", "", nil)},
+		builder{name: "xap", fn: buildXAP},
+		builder{name: "vsix", fn: buildVSIX},
+		builder{name: "appx", fn: buildAPPX},
 		builder{name: "macho", fn: stub("macho", "slimfile.app/dummyapp", "dummyapp", "", url.Values{"info-plist": {P + "slimfile.app/Info.plist"}, "resources": {P + "slimfile.app/_CodeSignature/CodeResources"}})},
 		builder{name: "dmg", fn: stub("dmg", "dummy.dmg", "dummy.dmg", "", nil)},
 		builder{name: "xar", fn: stub("xar", "dummy.pkg", "dummy.pkg", "", nil)},
